@@ -131,6 +131,23 @@ Definition alias_context (sk : list ainstr) (g : Z) (source : option (option Z))
   | None => alloc1 sk g
   end.
 
+(* contexts as chains: each level of a context chain carries an id or not; Value(cidKey) finds the
+   nearest one.  WithContext(parent) puts a level with a NEW id on top of the parent chain. *)
+Definition cchain := list (option Z).
+Fixpoint chain_id (c : cchain) : option Z :=
+  match c with [] => None | Some id :: _ => Some id | None :: r => chain_id r end.
+Definition with_context_chain (sk : list ainstr) (g : Z) (parent : cchain) : Z * cchain :=
+  let (g', id) := alloc1 sk g in (g', id :: parent).
+Definition derive_chain (parent : cchain) : cchain := None :: parent.     (* WithCancel / WithValue(other key) *)
+Definition alias_chain (sk : list ainstr) (g : Z) (parent : cchain) (source : option cchain) : Z * cchain :=
+  match source with
+  | Some sc => match chain_id sc with
+               | Some cid => (g, Some cid :: parent)
+               | None => with_context_chain sk g parent
+               end
+  | None => with_context_chain sk g parent
+  end.
+
 (* ------------------------------------------------------------------ Part B: lines *)
 Definition bstr (s : string) : bytes := map N_of_ascii (list_ascii_of_string s).
 
@@ -275,6 +292,22 @@ Fixpoint seq_ops (pid g : Z) (slots : list (Z * option Z)) (ops : list sx) : lis
         | (g', Some id) => SL [SZ 1; SZ id] :: seq_ops pid g' ((slot, Some id) :: slots) rest
         | (g', None) => bad_case :: seq_ops pid g' slots rest
         end
+    | SL [SZ 4; SZ slot; SZ _; SZ _] =>                        (* slot := WithContext(derived-from slots[parent]):
+                                                                  a NEW id whatever the parent chain carries *)
+        match alloc1 repo_skel g with
+        | (g', Some id) => SL [SZ 4; SZ id] :: seq_ops pid g' ((slot, Some id) :: slots) rest
+        | (g', None) => bad_case :: seq_ops pid g' slots rest
+        end
+    | SL [SZ 5; SZ slot; SZ _; SZ src] =>                      (* slot := AliasContext(slots[parent], slots[src]) *)
+        if negb alias_skel_ok then bad_case :: seq_ops pid g slots rest else
+        match alias_context repo_skel g (slot_get src slots) with
+        | (g', Some id) => SL [SZ 5; SZ id] :: seq_ops pid g' ((slot, Some id) :: slots) rest
+        | (g', None) => bad_case :: seq_ops pid g' slots rest
+        end
+    | SL [SZ 6; SZ slot; SZ parent] =>                         (* slot := context.WithCancel(slots[parent]): the
+                                                                  parent's id shows through *)
+        let v := match slot_get parent slots with Some v => v | None => None end in
+        SL [SZ 6; SZ (match v with Some id => id | None => -1 end)] :: seq_ops pid g ((slot, v) :: slots) rest
     | SL [SZ 3; SZ slot] =>                                    (* slot := a context without id *)
         SL [SZ 3] :: seq_ops pid g ((slot, None) :: slots) rest
     | SL [SZ 2; SZ lvl; SZ fn; SZ kind; SZ ref; SL msgs] =>    (* one logging call *)
@@ -396,6 +429,10 @@ Definition run_c18 (c : sx) : sx :=
       let n' := Z.to_nat n in let m' := Z.to_nat m in
       let s := arun (ainit repo_skel 999 (repeat m' n')) (rr_sched n' (m' * length repo_skel)) in
       SL [SZ 0; snat (length (alog s)); SZ (count_dups (ids s))]
+  | SL [SZ 8; SZ n; SZ m] =>
+      (* n goroutines: a parent with id, then m derived creations (4 of 5 are fresh ids, 1 aliases the
+         parent): (0 fresh-ids duplicates wrong-aliases) *)
+      SL [SZ 0; SZ (n * (1 + m - m / 5)); SZ 0; SZ 0]
   | SL [SZ 6; SZ pid; SL ops] => SL (wm_obs pid wm_init ops)
   | SL [SZ 7; SZ n; SZ m; SL mid] =>
       (* Switch(0); n goroutines x m lines; the writer-management ops [mid]; n x m lines again:
